@@ -3,7 +3,8 @@
    nsync_spin_test_and_set_ (common.c) and nsync_sem_wait_with_cancel_ (sem_wait.c).  The code modelled is the
    CURRENT one, i.e. with the repair of finding F3 (commit 70eb6e5: cv_dequeue tests membership of the record in
    pcv->waiters under the spinlock and otherwise waits for waiting == 0; wake_waiters reads p_nw->sem before it
-   clears waiting).
+   clears waiting), and with the repair of F15 (commit 0f631a1: the CAS of wake_waiters that releases the mutex spinlock
+   clears clear_on_release = MU_SPINLOCK, plus MU_WAITING when pmu->waiters is empty after the transfer).
 
    One step = one atomic site of cv.c / nsync_spin_test_and_set_ followed by the thread-local work and the
    spinlock-protected plain accesses up to the next site (DESIGN.md 3.1).  Every value written to the cv word,
@@ -27,7 +28,8 @@
      change the lock field (+-MU_WLOCK, +-MU_RLOCK) -- licence: the C01/C02 theorems about Model/MuModel.v.
      Everything else the real mutex code does is the ENVIRONMENT: [MuEnv f] rewrites the flag bits of the word
      (it cannot clear the spinlock bit while a wake_waiters of the model owns it), [MuDeq r] dequeues a transferred
-     record from the mutex queue (nsync_remove_from_mu_queue_: remove_count + 1), [MuWakeSt r] is the unlocker's
+     record from the mutex queue (nsync_remove_from_mu_queue_: remove_count + 1; only while no wake_waiters of the model
+     owns the mutex spinlock: the real dequeue is made under that spinlock), [MuWakeSt r] is the unlocker's
      store waiting = 0 for such a record, [EnvV t] a post on thread t's semaphore (the unlocker's V; also any stale
      post: the semaphore is shared with the thread's own mutex sleeps).  The two are COUPLED by the ghost counter
      [owed]: nsync_mu_unlock_slow_ always posts right after clearing waiting (mu.c: ATM_STORE_REL (&w->nw.waiting, 0);
@@ -37,6 +39,9 @@
      mutex-internal dequeue of a thread blocked inside an abstract acquisition (or, between two calls of its program,
      on some other nsync_mu; [EnvP t] is the P of such a sleep).  A thread inside an abstract
      acquisition may consume posts of its semaphore (choice [CIntP]: the P of nsync_mu_lock_slow_).
+     "pmu->waiters is empty" (wake_waiters, F15) is therefore: [muq] is empty after this call's transfer AND the environment
+     reports that no plain locker is queued (choice [CMuEmpty] of the step [VCas1], recorded in the ghost k_envq); the test is
+     made once, under the spinlock, before the release loop: clear_on_release is the local [k_clr].
    * nsync_sem_wait_with_cancel_ is one step: P on the thread's abstract semaphore (count : Z).  It returns 0
      only when count > 0 ([CNormal]), ETIMEDOUT only when clock >= deadline ([CTimeout]), ECANCELED only when the
      note is notified or its expiry has been reached, in which case the note becomes notified ([CCancel]); the
@@ -115,13 +120,16 @@ Record kl := mk_kl {
   k_todo : list nat;      (* selected native records whose remove_count is still to be incremented *)
   k_first : bool;         (* the next remove_count site is the one of the first waiter (nsync_cv_signal) *)
   k_set : Z;              (* set_on_release *)
+  k_clr : Z;              (* clear_on_release *)
   (* ghost: the history of this call, for the run-level theorems (never read by a step) *)
   k_q : list nat;         (* pcv->waiters at the CAS that acquired the cv spinlock *)
   k_rdrs : list nat;      (* the native readers among them (flags & MUCV, l_type == reader) at that moment *)
   k_taken : list nat;     (* the records this call unlinked from pcv->waiters *)
   k_xfer : list nat;      (* of those: handed to the mutex queue by wake_waiters (cv_mu = NULL) *)
   k_woken : list nat;     (* of those: waiting = 0 stored by wake_waiters, in order *)
-  k_posts : list nat      (* the threads whose semaphore wake_waiters has posted, in order *)
+  k_posts : list nat;     (* the threads whose semaphore wake_waiters has posted, in order *)
+  k_envq : bool           (* when wake_waiters tested nsync_dll_is_empty_ (pmu->waiters) under the mutex spinlock: the environment
+                             reported a plain locker (a waiter CvModel does not model) on the mutex queue *)
 }.
 (* an nsync_wait_n call on the cv *)
 Record nl := mk_nl {
@@ -201,7 +209,10 @@ Inductive actor :=
 | Tick (dt : Z) | Notify
 | MuEnv (flags : Z) | MuDeq (r : nat) | MuWakeSt (r : nat) | EnvV (t : nat) | EnvRc (r : nat)    (* ABSTRACT mutex internals *)
 | EnvP (t : nat).         (* thread t, between two calls of its program, sleeps on some other nsync object *)
-Inductive choice := CNormal | CTimeout | CCancel | CIntP.
+(* [CMuEmpty] is read by ONE step, the successful CAS of wake_waiters that takes the mutex spinlock ([VCas1]): the ENVIRONMENT
+   reports that the mutex queue holds no plain locker (no waiter other than the transferred records [muq] the model knows);
+   every other choice at that step reports that one is queued.  Everywhere else it behaves as [CNormal]. *)
+Inductive choice := CNormal | CTimeout | CCancel | CIntP | CMuEmpty.
 
 (* observable event of a step; obj: record id, -1 = the cv word, -2 = the mutex word *)
 Inductive ev :=
@@ -308,17 +319,18 @@ Definition wl_inc_pafter (l : wl) : wl :=
   mk_wl (w_dl l) (w_can l) (w_gen l) (w_entry l) (w_rdr l) (w_old l) (w_rc l) (w_so l) (w_out l) (w_toclk l)
         (if w_so l =? 0 then w_pafter l else w_pafter l + 1).
 Definition kl_set_old (k : kl) (v : Z) : kl :=
-  mk_kl (k_bc k) v (k_wake k) (k_allr k) (k_todo k) (k_first k) (k_set k) (k_q k) (k_rdrs k) (k_taken k) (k_xfer k) (k_woken k) (k_posts k).
+  mk_kl (k_bc k) v (k_wake k) (k_allr k) (k_todo k) (k_first k) (k_set k) (k_clr k) (k_q k) (k_rdrs k) (k_taken k) (k_xfer k) (k_woken k) (k_posts k) (k_envq k).
 Definition kl_next_todo (k : kl) : kl :=
-  mk_kl (k_bc k) (k_old k) (k_wake k) (k_allr k) (tl (k_todo k)) false (k_set k) (k_q k) (k_rdrs k) (k_taken k) (k_xfer k) (k_woken k) (k_posts k).
-(* wake_waiters: [moved] went to the mutex queue, [stay] is what is left of to_wake_list *)
-Definition kl_set_xfer (k : kl) (stay moved : list nat) (s : Z) : kl :=
-  mk_kl (k_bc k) (k_old k) stay (k_allr k) (k_todo k) (k_first k) s (k_q k) (k_rdrs k) (k_taken k) (k_xfer k ++ moved) (k_woken k) (k_posts k).
+  mk_kl (k_bc k) (k_old k) (k_wake k) (k_allr k) (tl (k_todo k)) false (k_set k) (k_clr k) (k_q k) (k_rdrs k) (k_taken k) (k_xfer k) (k_woken k) (k_posts k) (k_envq k).
+(* wake_waiters: [moved] went to the mutex queue, [stay] is what is left of to_wake_list; set_on_release, clear_on_release;
+   ghost: what the environment reported about plain lockers on the mutex queue *)
+Definition kl_set_xfer (k : kl) (stay moved : list nat) (s : Z) (clr : Z) (envq : bool) : kl :=
+  mk_kl (k_bc k) (k_old k) stay (k_allr k) (k_todo k) (k_first k) s clr (k_q k) (k_rdrs k) (k_taken k) (k_xfer k ++ moved) (k_woken k) (k_posts k) envq.
 (* wake_waiters: p was unlinked from to_wake_list ([rest] remains) and its waiting flag cleared *)
 Definition kl_wake_one (k : kl) (rest : list nat) (p : nat) : kl :=
-  mk_kl (k_bc k) (k_old k) rest (k_allr k) (k_todo k) (k_first k) (k_set k) (k_q k) (k_rdrs k) (k_taken k) (k_xfer k) (k_woken k ++ [p]) (k_posts k).
+  mk_kl (k_bc k) (k_old k) rest (k_allr k) (k_todo k) (k_first k) (k_set k) (k_clr k) (k_q k) (k_rdrs k) (k_taken k) (k_xfer k) (k_woken k ++ [p]) (k_posts k) (k_envq k).
 Definition kl_add_post (k : kl) (o : nat) : kl :=
-  mk_kl (k_bc k) (k_old k) (k_wake k) (k_allr k) (k_todo k) (k_first k) (k_set k) (k_q k) (k_rdrs k) (k_taken k) (k_xfer k) (k_woken k) (k_posts k ++ [o]).
+  mk_kl (k_bc k) (k_old k) (k_wake k) (k_allr k) (k_todo k) (k_first k) (k_set k) (k_clr k) (k_q k) (k_rdrs k) (k_taken k) (k_xfer k) (k_woken k) (k_posts k ++ [o]) (k_envq k).
 Definition nl_set_old (n : nl) (v : Z) : nl := mk_nl (n_r n) (n_dl n) v (n_wasq n) (n_rel n).
 Definition nl_set_wasq (n : nl) (b : bool) : nl := mk_nl (n_r n) (n_dl n) (n_old n) b (n_rel n).
 Definition nl_set_rel (n : nl) (o : option mode) : nl := mk_nl (n_r n) (n_dl n) (n_old n) (n_wasq n) o.
@@ -380,6 +392,12 @@ Fixpoint map_recs (g : rec -> rec) (l : list nat) (f : nat -> rec) : nat -> rec 
 Definition clear_cv_mu (rs : nat -> rec) (l : list nat) : nat -> rec := map_recs (fun x => r_set_loc (r_set_cv_mu x false) PMuq) l rs.
 
 (* ---------- ABSTRACT mutex ---------- *)
+(* wake_waiters, under the mutex spinlock: does the environment report a plain locker on the mutex queue? *)
+Definition env_reports_queued (c : choice) : bool := match c with CMuEmpty => false | _ => true end.
+(* wake_waiters: clear_on_release = MU_SPINLOCK; if (nsync_dll_is_empty_ (pmu->waiters)) clear_on_release |= MU_WAITING;
+   q: the transferred records on the mutex queue, envq: the environment's report about the others *)
+Definition clear_on_release (q : list nat) (envq : bool) : Z :=
+  if is_nil q && negb envq then Z.lor MU_SPINLOCK MU_WAITING else MU_SPINLOCK.
 Definition can_acquire (word : Z) (m : mode) : bool :=
   match m with
   | W => (word mod 2 =? 0) && (word / 256 =? 0)
@@ -439,8 +457,8 @@ Definition spin_done (w : world) (t : nat) (k : spk) (old : Z) : world :=
       let w1 := touch_queue w in
       let w2 := set_recs w1 (map_recs (fun x => r_move x (Some t) (PPriv t)) wk (recs w1)) in
       let old' := if is_nil (cvq w) then old else if is_nil kp then band old (bnot32 CV_NON_EMPTY) else old in
-      let kk := mk_kl bc old' wk allr (filter (fun p => is_mucv (recs w p)) wk) (negb bc) 0
-                      (cvq w) (filter (fun p => is_rdr (recs w p)) (cvq w)) wk [] [] [] in
+      let kk := mk_kl bc old' wk allr (filter (fun p => is_mucv (recs w p)) wk) (negb bc) 0 0
+                      (cvq w) (filter (fun p => is_rdr (recs w p)) (cvq w)) wk [] [] [] false in
       set_pc (set_cvq w2 kp) t (after_todo kk)
   | KEnq n =>
       let w1 := upd_rec (touch (set_cvq (touch_queue w) (cvq w ++ [n_r n])) (n_r n)) (n_r n) (fun x => r_move x None PCvq) in
@@ -636,12 +654,17 @@ Definition st_VCas1 (w : world) (t : nat) (k : kl) (old : Z) (c : choice) : worl
     let '(moved, stay, set_on) := xfer (recs w) fca (k_wake k) in
     let w1 := touch_all (set_muw w new) (k_wake k) in
     let w2 := set_muq (set_recs w1 (clear_cv_mu (recs w1) moved)) (muq w1 ++ moved) in
-    (set_pc (set_mspin w2 (Some t)) t (VLoad3 (kl_set_xfer k stay moved set_on)), EvCas 102 OBJ_MU old new true)
+    (* clear_on_release = MU_SPINLOCK, plus MU_WAITING if nsync_dll_is_empty_ (pmu->waiters) now, under the mutex spinlock, after
+       the transfer (the repair of F15).  ABSTRACT mutex: pmu->waiters = the transferred records [muq] + the plain lockers the
+       model does not see; whether one of THOSE is queued is the environment's report (the step's choice). *)
+    let envq := env_reports_queued c in
+    let clr := clear_on_release (muq w2) envq in
+    (set_pc (set_mspin w2 (Some t)) t (VLoad3 (kl_set_xfer k stay moved set_on clr envq)), EvCas 102 OBJ_MU old new true)
   else (set_pc (wake_done w t k) t (enter_wake_loop k), EvCas 102 OBJ_MU old new false).
 Definition st_VLoad3 (w : world) (t : nat) (k : kl) (c : choice) : world * ev :=
   (set_pc w t (VCas2 k (muw w)), EvLoad 103 OBJ_MU (muw w)).
 Definition st_VCas2 (w : world) (t : nat) (k : kl) (old : Z) (c : choice) : world * ev :=
-  let new := wake_waiters_cas2_new old (k_set k) in
+  let new := wake_waiters_cas2_new old (k_set k) (k_clr k) in
   if muw w =? wake_waiters_cas2_old old
   then (set_pc (wake_done (set_mspin (set_muw w new) None) t k) t (enter_wake_loop k), EvCas 104 OBJ_MU old new true)
   else (set_pc w t (VLoad5 k), EvCas 104 OBJ_MU old new false).
@@ -799,8 +822,9 @@ Definition step (w : world) (a : actor) (c : choice) : world * ev :=
       let f' := mu_flags (wrap_u 32 f) in
       if match mspin w with Some _ => has f' MU_SPINLOCK | None => true end
       then (set_muw w (mu_lockf (muw w) + f'), EvEnv true) else (w, EvEnv false)
-  | MuDeq r =>
-      if mem_id r (muq w) then
+  | MuDeq r =>      (* nsync_remove_from_mu_queue_ is only called with the mutex spinlock held: never while a wake_waiters of the
+                       model owns it *)
+      if match mspin w with None => mem_id r (muq w) | Some _ => false end then
         let x := recs w r in
         (set_mwake (set_muq (set_rec w r (r_set_loc (r_set_rcount x (wrap_u 32 (rcount x + 1))) PMwake)) (remove_id r (muq w))) (mwake w ++ [r]), EvEnv true)
       else (w, EvEnv false)
